@@ -29,6 +29,9 @@ static void overide_opd_size(struct instr *all_instr, unsigned int *rm) {
     *rm = *rm & SET_WORD;
   else if (all_instr->keyword.is_dword)
     *rm = *rm & SET_DWORD;
+  // (the base register may be a 32-bit one or missing)
+  else if (all_instr->keyword.is_qword)
+    *rm = *rm | reg64;
 }
 
 static unsigned int get_vector_rex_prefix(struct instr *all_instr, asm_reg m,
